@@ -26,12 +26,12 @@ type C17Case struct {
 var c17Words = []string{"alpha", "bravo", "charlie", "delta", "echo", "foxtrot", "golf", "hotel", "india", "juliet", "kilo", "lima"}
 
 func genC17(t *rapid.T) C17Case {
-	lens := []int{1, 200, 4096, 65000, 65535, 65536, 65537, 70000, 131072}
+	lens := []int{1, 200, 4096, 65000, 65535, 65536, 65537, 70000, 131072, 65536, 65537, 70000, 131072, 1048576}
 	if thorough() {
-		lens = append(lens, 262144, 1048576)
+		lens = append(lens, 262144, 1048576, 1048577, 2097152)
 	}
 	c := C17Case{
-		Cmd:     rapid.SampledFrom([]string{"generate", "generate", "generate-include", "format", "renumber", "copyright"}).Draw(t, "cmd"),
+		Cmd:     rapid.SampledFrom([]string{"generate", "generate", "generate-include", "generate-include-pairs", "generate-include-except", "format", "renumber", "copyright"}).Draw(t, "cmd"),
 		Long:    rapid.SampledFrom([]string{"entry", "entry", "comment"}).Draw(t, "long"),
 		Len:     rapid.SampledFrom(lens).Draw(t, "len"),
 		FinalNL: rapid.IntRange(0, 3).Draw(t, "finalnl") != 0,
@@ -99,7 +99,7 @@ func checkC17(c C17Case) Outcome {
 		return true, ""
 	}
 	switch c.Cmd {
-	case "generate", "generate-include":
+	case "generate", "generate-include", "generate-include-pairs", "generate-include-except":
 		long := tok
 		if c.Long == "comment" {
 			long = "##! " + tok
@@ -107,9 +107,17 @@ func checkC17(c C17Case) Outcome {
 		lines := insert(c.Words, long)
 		tree := cli.Tree{"regex-assembly/": ""}
 		stdin := join(lines)
-		if c.Cmd == "generate-include" {
+		switch c.Cmd {
+		case "generate-include":
 			tree["regex-assembly/include/big.ra"] = stdin
 			stdin = "lead\n##!> include big\n"
+		case "generate-include-pairs":
+			tree["regex-assembly/include/big.ra"] = stdin
+			stdin = "lead\n##!> include big -- @ \"\" ~ x\n"
+		case "generate-include-except":
+			tree["regex-assembly/include/big.ra"] = stdin
+			tree["regex-assembly/exclude/none.ra"] = "nothing-in-common\n"
+			stdin = "lead\n##!> include-except big none\n"
 		}
 		if err := tree.Write(root); err != nil {
 			panic(err)
@@ -128,16 +136,16 @@ func checkC17(c C17Case) Outcome {
 		if c.Long == "entry" {
 			must = append(must, tok)
 		}
-		if c.Cmd == "generate-include" {
+		if c.Cmd != "generate" {
 			must = append(must, "lead")
 		}
+		matcher, err := reqv.Matcher(r.Stdout)
+		if err != nil {
+			out.Violation = "output is not an RE2 expression: " + err.Error()
+			return out
+		}
 		for _, w := range must {
-			m, err := reqv.FullMatch(r.Stdout, w)
-			if err != nil {
-				out.Violation = "output is not an RE2 expression: " + err.Error()
-				return out
-			}
-			if !m {
+			if !matcher(w) {
 				out.Detail["missing"] = clip(w, 40)
 				out.Detail["stdout"] = clip(r.Stdout, 300)
 				out.Violation = fmt.Sprintf("exit 0 but entry %q is not accepted by the generated regex: input was silently truncated", clip(w, 40))
